@@ -257,6 +257,11 @@ CORPUS = [
     # load from the smashed array misses it (known finding of array_adaptive, smashable settings;
     # Coq: C14_adaptive_smash_untracked_refuted)
     "ahist 2 3 1 w=32 esz=4 one=- ; astore 0 0 E 0 4 E 0 8 E 0 2 0 ; join 1 0 1 ; astore 1 0 E 0 4 E 0 0 E 0 5 0 ; assume 1 2 C le E 1 -1 0 0 C le E 1 1 0 -4 ; astore 1 0 E 0 4 E 1 1 0 0 E 0 7 0 ; aload 1 1 0 E 0 4 E 0 8",
+    # the same finding through a symbolic store that can only kill cells (smash_at_nonzero_offset = 0 and the
+    # first cell at offset 4): it writes A[8] or A[12], cells that the state does not track; the array is
+    # smashed later and the load of A[8] misses the value 100 (Coq: the side condition store_keeps of
+    # C14_adaptive_store_keeps_tracked)
+    "ahist 2 4 1 w=32 esz=4 one=- ; astore 0 0 E 0 4 E 0 4 E 0 5 0 ; copy 1 0 ; assign 0 1 E 0 8 ; assign 1 1 E 0 12 ; join 0 0 1 ; astore 0 0 E 0 4 E 1 1 1 0 E 0 100 0 ; astore 0 0 E 0 4 E 0 0 E 0 1 0 ; copy 1 0 ; assign 0 3 E 0 0 ; assign 1 3 E 0 4 ; join 0 0 1 ; astore 0 0 E 0 4 E 1 1 3 0 E 0 9 0 ; aload 0 0 0 E 0 4 E 0 8",
     # array operations on a bottom value (fixes/arrays-3)
     "ahist 2 3 1 w=32 esz=4 one=- ; bot 0 ; astore 0 0 E 0 4 E 0 0 E 0 5 0 ; aload 0 1 0 E 0 4 E 0 0 ; arange 0 0 E 0 4 E 0 0 E 0 8 E 0 1 ; join 1 0 1",
     # symbolic store that cannot smash (array does not start at 0), store again, symbolic store again
